@@ -17,13 +17,22 @@ def run(tier, seed):
     ck.proof = lib.proof_step('props/C11.v', matchcheck.MATCH_CONE + ['CaseFacts.v'])
     ck.broken += ck.proof['broken']
     if not ck.proof['driver_ok']:
-        return ck.finish(rule='driver unavailable')
+        ck.notes['driver'] = 'unavailable: model-side runs skipped, searching with the implementation-side oracles only'
     import soupsieve as sv
     n = 60 if tier == 'quick' else 1200
     scs = []
     for _ in range(n):
         tg = gen_trees.TGen(rnd)
         body = [tg.generic(1), tg.control(0), tg.control(0)]
+        if rnd.random() < 0.6:
+            # foreign content with mixed-case names (html5lib gives these elements the SVG / MathML namespace and its own
+            # spelling of the names): in an HTML document they still match regardless of ASCII case
+            body.insert(rnd.randrange(len(body) + 1), ('e', 'svg', {'viewBox': '0 0 1 1', 'width': '1'}, [
+                ('e', 'linearGradient', {'gradientUnits': 'userSpaceOnUse', 'id': 'g1'}, []),
+                ('e', 'clipPath', {'class': 'x'}, [('e', 'circle', {'r': '1', 'title': 'x'}, [])]),
+                ('e', 'foreignObject', {}, [('e', 'p', {'title': 'X'}, [('t', 'in svg')])])]))
+            if rnd.random() < 0.5:
+                body.append(('e', 'math', {'display': 'block'}, [('e', 'mi', {'mathvariant': 'bold'}, [('t', 'x')])]))
         # mixed-case names and a type attribute, so that case rules are observable
         ab = ('e', 'html', {}, [('e', 'head', {}, []), ('e', 'body', {}, body)])
         mk_html = gen_trees.to_markup(ab)
